@@ -691,7 +691,10 @@ def check_apply_channel_only(ctx, cirq):
         want_super = sum(np.kron(k, np.conjugate(k)) for k in ks)
         ctx.case(['apply-channel-only', nq, it], True)
         ctx.count('check', 'apply-channel-only')
-        got_k = cirq.kraus(g, None)
+        try:
+            got_k = cirq.kraus(g)   # (the fallback through _apply_channel_ is not tried when a default of None is given)
+        except TypeError:
+            got_k = None
         got_super = None if got_k is None else sum(np.kron(k, np.conjugate(k)) for k in got_k)
         qs = cirq.LineQubit.range(nq)
         rho0 = np.zeros((d, d), dtype=complex)
